@@ -112,9 +112,8 @@ func (d *differ) typ(kind, path string, e, o *Type) {
 		if scopeStr(e.Ref) != scopeStr(o.Ref) {
 			d.add(kind+".ref", path, "reference target declared %s, compiled %s", scopeStr(e.Ref), scopeStr(o.Ref))
 		}
-		if scopeStr(e.Ctx) != scopeStr(o.Ctx) {
-			d.add(kind+".refctx", path, "reference context declared %s, compiled %s", scopeStr(e.Ctx), scopeStr(o.Ctx))
-		}
+		// the reference CONTEXT (where the reference was written) is the compiler's bookkeeping, not something the
+		// text declares: the oracle does not judge it (the Coq correspondence compares it with the listener model)
 	case "set", "seq", "list":
 		d.typ(kind+".inner", path+"/"+e.Kind, e.Inner, o.Inner)
 	case "tuple", "relation":
